@@ -123,4 +123,46 @@ add(Contract(
                        OLD_DELIMS_SAME[:2]],
                "dec": "length - i"}},
 ))
-FUNCS = [RI + "newline.newline", SI + "scanDelims", RI + "emphasis.tokenize", RI + "strikethrough.tokenize"]
+
+# ---------------------------------------------------------------------------------------------- code spans (C08)
+# A = first character after the opening backtick string, B = first character of the closing one; R = src[A:B] with
+# line endings as spaces.  PAD: R starts and ends with a space and is not all spaces - then one space is removed from
+# each side.  (posMax is not an upper bound for the closing string: str.index searches the whole source, as upstream
+# does; the link/image rules rely on parseLinkLabel having skipped whole code spans.  So no `pos <= posMax` is claimed.)
+SP = lambda i: f"(state.src[{i}] == ' ' or state.src[{i}] == '\\n')"  # noqa: E731
+ALLSP = "forall(k, A, B, " + SP("k") + ")"
+PAD = f"(B > A and {SP('A')} and {SP('B - 1')} and not {ALLSP})"
+OFF = f"(1 if {PAD} else 0)"
+add(Contract(
+    RI + "backticks.backtick", params={"state": "obj:StateInline", "silent": "bool"}, result="bool", props=["C01", "C08", "C02"],
+    ghost={"defs": {"P0": "old(state.pos)", "T": "new_tokens(state)", "L": "len(T[-1].markup)", "A": "(P0 + len(T[-1].markup))", "B": "(state.pos - len(T[-1].markup))"}},
+    requires=POSR,
+    ensures=[
+        ("trigger", "iff(result, state.src[P0] == '`')", ["C01"]),
+        ("advance", "implies(result, P0 < state.pos and state.pos <= len(state.src))", ["C01", "C20"]),
+        ("fail-pure", "implies(not result, state.pos == P0 and state.pending == old(state.pending) and ntokens(state) == old(ntokens(state)))", ["C01"]),
+        ("silent-pure", "implies(silent, state.pending == old(state.pending) and ntokens(state) == old(ntokens(state)))", ["C01"]),
+        ("level", "state.level == old(state.level) and state.posMax == old(state.posMax)", ["C01", "C02"]),
+        ("token-shape", "implies(ntokens(state) > old(ntokens(state)), T[-1].type == 'code_inline' and T[-1].tag == 'code' and T[-1].nesting == 0 and T[-1].level == old(state.level))", ["C02"]),
+        ("markup-is-the-opening-backtick-string", "implies(ntokens(state) > old(ntokens(state)), L >= 1 and T[-1].markup == state.src[P0:P0 + L] and forall(k, P0, P0 + L, state.src[k] == '`') "
+                                                  "and (P0 + L == state.posMax or state.src[P0 + L] != '`'))", ["C08"]),
+        ("closing-string-same-length", "implies(ntokens(state) > old(ntokens(state)), A <= B and forall(k, B, state.pos, state.src[k] == '`'))", ["C08"]),
+        ("content-length", f"implies(ntokens(state) > old(ntokens(state)), len(T[-1].content) == B - A - 2 * {OFF})", ["C08"]),
+        ("content-is-the-text-between", f"implies(ntokens(state) > old(ntokens(state)), forall(j, 0, len(T[-1].content), T[-1].content[j] == (' ' if state.src[A + j + {OFF}] == '\\n' else state.src[A + j + {OFF}])))", ["C08"]),
+        ("unmatched-string-stays-text", "implies(result and not silent and ntokens(state) == old(ntokens(state)), len(state.pending) == old(len(state.pending)) + (state.pos - P0) "
+                                        "and forall(k, P0, state.pos, state.src[k] == '`'))", ["C08", "C02"]),
+    ],
+    loops={0: {"inv": [("run", "P0 + 1 <= pos and pos <= maximum and maximum == state.posMax and forall(k, P0, pos, state.src[k] == '`')")], "dec": "maximum - pos"},
+           1: {"types": {"token": "none", "closerLength": "int"},
+               "inv": [("opener", "start == P0 and P0 + 1 <= pos and pos <= maximum and maximum == state.posMax and maximum <= len(state.src) and forall(k, P0, pos, state.src[k] == '`') "
+                                  "and (pos == maximum or state.src[pos] != '`') and openerLength == pos - P0 and marker == state.src[P0:pos]"),
+                       ("scan", "pos <= matchEnd and matchEnd <= len(state.src)"),
+                       ("untouched", "state.pos == P0 and state.pending == old(state.pending) and ntokens(state) == old(ntokens(state)) and state.level == old(state.level) and state.posMax == old(state.posMax)")],
+               "dec": "len(state.src) - matchEnd"},
+           2: {"inv": [("opener", "start == P0 and P0 + 1 <= pos and pos <= maximum and maximum == state.posMax and maximum <= len(state.src) and forall(k, P0, pos, state.src[k] == '`') "
+                                  "and (pos == maximum or state.src[pos] != '`') and openerLength == pos - P0 and marker == state.src[P0:pos]"),
+                       ("closer-run", "pos <= matchStart and matchStart < matchEnd and matchEnd <= len(state.src) and forall(k, matchStart, matchEnd, state.src[k] == '`')"),
+                       ("untouched", "state.pos == P0 and state.pending == old(state.pending) and ntokens(state) == old(ntokens(state)) and state.level == old(state.level) and state.posMax == old(state.posMax)")],
+               "dec": "len(state.src) - matchEnd"}},
+))
+FUNCS = [RI + "newline.newline", SI + "scanDelims", RI + "emphasis.tokenize", RI + "strikethrough.tokenize", RI + "backticks.backtick"]
